@@ -8,6 +8,11 @@
 //             kind F = FileLogger (default), X = XmlFileLogger, P = PipeLogger ("|cat > file")
 //             layout flags: any of m (mstart) s (sstart) t (thread) T (timestamp) M (minitimestamp) l (level) L (location), "-" = none
 //             locs = per call '1': send() gets a file/line string "src.cpp:<call>", '0': nullptr (default)
+//           optionally a tenth field "<txts>,<txts>,...": per call the form of the text: '0' "<producer>.<call>" (default),
+//             'n' the same followed by "\n", 'e' "<producer>.<call>\nx<call>" (embedded line end), 'r' followed by "\r\n",
+//             'N' only "\n"   (basic layout of FileLogger only)
+//           The file is read right after stop() has returned and BEFORE the logger is destroyed (destruction flushes the
+//           stream); "post=" is the number of physical lines the file has after the destruction.
 //           Whatever the layout, the result reports for every written line the sequence field (as 7 digits), the direction
 //           field if the flag is set, and the text, EXTRACTED from the line (text = last word of a text line / the text
 //           attribute of an XML line); a line from which they cannot be extracted is reported as "?<line>".
@@ -90,8 +95,26 @@ static std::string run_case(const std::string& line, unsigned caseno)
 	locs.resize(prog.size());
 	for (size_t i(0); i < prog.size(); ++i)
 		locs[i].resize(prog[i].size(), '0');
+	std::string txtstr;
+	std::vector<std::string> txts;
+	if (is >> txtstr)
+		for (auto& v : split(txtstr, ','))
+			txts.push_back(v == "-" ? std::string() : v);
+	txts.resize(prog.size());
+	for (size_t i(0); i < prog.size(); ++i)
+		txts[i].resize(prog[i].size(), '0');
 	if (kind != "F" && kind != "X" && kind != "P")
 		return "BAD-CASE";
+	// physical lines the complete file has: one per call at an enabled level, plus the line ends inside the texts
+	expect = 0;
+	for (size_t i(0); i < prog.size(); ++i)
+		for (size_t k(0); k < prog[i].size(); ++k)
+		{
+			const char ch(prog[i][k]);
+			const int lev(ch >= 'a' ? ch - 'a' : ch - '0');
+			if (mask & (1u << lev))
+				expect += 1 + (ch >= 'a' || txts[i][k] == '0' ? 0 : 1);
+		}
 	const bool xml(kind == "X"), piped(kind == "P");
 	auto has = [&](char f) { return layout.find(f) != std::string::npos; };
 
@@ -147,7 +170,18 @@ static std::string run_case(const std::string& line, unsigned caseno)
 				const int lev(empty ? p[k] - 'a' : p[k] - '0');
 				std::ostringstream txt;
 				if (!empty)
-					txt << i << '.' << k;
+				{
+					const char form(txts[i][k]);
+					if (form == 'N')
+						txt << '\n';
+					else
+					{
+						txt << i << '.' << k;
+						if (form == 'n') txt << '\n';
+						else if (form == 'e') txt << "\nx" << k;
+						else if (form == 'r') txt << "\r\n";
+					}
+				}
 				const unsigned val(vals[i][k] == '0' ? 0 : vals[i][k] == '1' ? 1 : 4096);
 				const char *fl(locs[i][k] == '1' ? loc_store[i][k].c_str() : nullptr);
 				const bool r(lg->send(txt.str(), static_cast<Logger::Level>(lev), fl, val));
@@ -278,15 +312,22 @@ static std::string run_case(const std::string& line, unsigned caseno)
 			for (auto& ch : canon)
 			{
 				if (ch == ' ') ch = '/';
+				else if (ch == '\r') ch = '~';
 				else if (!(isalnum(static_cast<unsigned char>(ch)) || ch == '.' || (ch == '?' && !good))) ch = '_';
 			}
-			out << (first ? "" : ",") << (canon.empty() ? std::string("?") : canon);
+			out << (first ? "" : ",") << (canon.empty() ? std::string("=") : canon);
 			first = false;
 		}
 		if (first)
 			out << '-';
 	}
 	delete lg;
+	{
+		size_t post(count_lines(path));
+		if (xml)
+			post = post >= 3 ? post - 3 : 0;		// preamble (2 lines) and postamble
+		out << " post=" << post;
+	}
 	release = true;
 	for (auto& t : thr)
 		t.join();
